@@ -4,7 +4,7 @@ from __future__ import annotations
 import importlib
 
 OP_MODULES = ["contracts.c05", "contracts.c06", "contracts.c11", "contracts.c13", "contracts.c40", "contracts.c17", "contracts.c17q",
-              "contracts.c19", "contracts.c18", "contracts.c15"]
+              "contracts.c19", "contracts.c18", "contracts.c15", "contracts.c10"]
 MONITOR_MODULES = ["contracts.c26"]
 
 
@@ -90,7 +90,7 @@ FAMILIES = {
     "C30": ["tramp"],
     "C35": ["periodic"],
     "C37": ["srcfac"],
-    "C10": ["seqcomp"],
+    "C10": ["seqcomp", "op"],
     "C24": ["mcast"],
     "C22": ["replay", "schedobs"],
     "C32": ["schedobs"],
@@ -108,7 +108,7 @@ FAMILIES = {
     "C29": ["vts"],
     "C25": ["monitor", "scheddisp"],
     "C26": ["monitor"],
-    "C27": ["monitor"],
+    "C27": ["monitor", "refcount"],
     "C39": ["forward"],
     "C01": ["class", "subscribe"],
     "C04": ["frame"],
@@ -188,6 +188,8 @@ def callee_units(prop, have):
             for m in CLASS_MODULES:
                 pool += [({"runner": "classref", "module": m, "name": c.name, "prop": prop, "id": c.uid}) for c in importlib.import_module(m).CLASSES
                          if c.name == name]
+        if name == "RefCountDisposable":
+            pool.append({"runner": "refcount", "prop": prop, "id": "reactivex/disposable/refcountdisposable.py::RefCountDisposable[functional]"})
         out += [u for u in pool if u["id"] not in have]
     return out
 
@@ -211,6 +213,8 @@ def units_for(prop, tier):
         us.append({"runner": "timedextra", "prop": prop, "id": f"timed-operators-not-under-contract/{prop}"})
     if "grouping" in fams:
         us.append({"runner": "grouping", "prop": prop, "id": f"grouping-wiring/{prop}"})
+    if "refcount" in fams:
+        us.append({"runner": "refcount", "prop": prop, "id": "reactivex/disposable/refcountdisposable.py::RefCountDisposable[functional]"})
     if "flatwire" in fams:
         us.append({"runner": "flatwire", "prop": prop, "id": f"composition-wiring/{prop}"})
     if "scheddisp" in fams:
@@ -266,6 +270,10 @@ def units_for(prop, tier):
     us += callee_units(prop, {u["id"] for u in us})
     if prop in STATE_ALLOCATION:
         us.append({"runner": "frame", "mode": "local", "prop": prop, "files": _property_files(prop), "id": f"state-allocation/{prop}"})
+        # ... and about the implementation functions: the public entry points reach them with the very arguments (pubapi.py)
+        us.append({"runner": "pubapi", "prop": prop, "files": _property_files(prop), "id": f"public-entry-points/{prop}"})
+    elif prop in ("C24",):
+        us.append({"runner": "pubapi", "prop": prop, "files": _property_files(prop), "id": f"public-entry-points/{prop}"})
     for u in us:
         u["tier"] = tier
     return us
